@@ -107,8 +107,6 @@ def main():
             if not (0 <= s <= e <= max(nchars, 1) + 1):
                 problems.append("E%d: span %d-%d outside the file (%d chars)" % (code, s, e, nchars))
                 continue
-            if "\r" in src:
-                continue        # CRLF sources: separate probe below (finding F4)
             true_line = src.count("\n", 0, s) + 1
             if s >= nchars and nchars > 0 and src.endswith("\n"):
                 # end-of-file locations may be reported on the last real line
@@ -118,6 +116,32 @@ def main():
                 problems.append("E%d: reported line %d but the span starts on line %d (span %d-%d)" % (code, line, true_line, s, e))
         if problems:
             rep.violation("diag:" + rq[:300], {"why": problems[:6], "files": srcs, "harness_request": rq, "implementation": a[:1200]})
+    # layout metamorphosis: the same single-file program with CRLF line ends, and with a comment line of multi-byte
+    # characters in front (LF and CRLF), must get the same diagnostics at the same line/column over the same text
+    base = [(i, u[0][1]) for i, u in enumerate(inputs)
+            if len(u) == 1 and "\r" not in u[0][1] and all(ord(c) < 128 for c in u[0][1]) and not h[i].startswith(("crash", "panic"))]
+    base = base[:(3000 if thorough else 250)]
+    variants = []
+    for i, src in base:
+        variants.append((i, "crlf", 0, src.replace("\n", "\r\n")))
+        variants.append((i, "multibyte-comment", 1, "// caf\u00e9 \u20ac \U0001F35D\n" + src))
+        variants.append((i, "multibyte-comment+crlf", 1, ("// caf\u00e9 \u20ac \U0001F35D\n" + src).replace("\n", "\r\n")))
+    vh = run_harness(["diag\tm.pn\t" + esc(v[3]) for v in variants])
+
+    def located_items(src, ans):
+        _d, items = parse_diag(ans)
+        return [(kind, code, line, col, src[s_:e_]) for (kind, code, _f, s_, e_, line, col) in items]
+    for (i, what, shift, vsrc), va in zip(variants, vh):
+        if va.startswith(("crash", "panic")):
+            continue
+        want = [(k, c, line + shift, col, text) for (k, c, line, col, text) in located_items(inputs[i][0][1], h[i])]
+        got = [(k, c, line, col, text.replace("\r\n", "\n")) for (k, c, line, col, text) in located_items(vsrc, va)]
+        dist["layout-variant:" + what] += 1
+        if sorted(want) != sorted(got):
+            rep.violation("layout:%s:%s" % (what, reqs[i][:200]), {
+                "why": "the %s variant of the program gets different diagnostics, lines, columns or underlined text" % what,
+                "files": {"m.pn": vsrc}, "harness_request": "diag\tm.pn\t" + esc(vsrc),
+                "expected (kind, code, line, col, text)": sorted(want)[:8], "got": sorted(got)[:8]})
     # determinism: fresh processes must print identical diagnostics / IR
     det = [i for i in range(len(inputs)) if i % (10 if thorough else 18) == 0]
     runs = [[run_harness_serial([reqs[i]])[0] for i in det] for _ in range(3)]
